@@ -268,7 +268,7 @@ macro_rules! op_extend_bools {
 // @bound pre-state: 510 bits (symbolic contents); three symbolic booleans through Extend<bool> (crosses the line boundary)
 // @funcs BitVectorMut::extend<bool>, BitVectorMut::push
 op_extend_bools!(c08_extend_bools_n510, 1, 510);
-// @h props=C08 tier=quick family=A mem=6 timeout=1200 role=bitvectormut.extend_bools
+// @h props=C08,C19 tier=quick family=A mem=6 timeout=1200 role=bitvectormut.extend_bools
 // @bound pre-state: empty; three symbolic booleans
 // @funcs BitVectorMut::extend<bool>, BitVectorMut::push
 op_extend_bools!(c08_extend_bools_n0, 0, 0);
